@@ -382,5 +382,9 @@ def _vspv_post(S_):
 
 
 c.ens("reference-to-the-values-entry", _vspv_post, props=["C07", "C02"])
+c.ens("keeps-its-table-and-cache-objects", lambda S_: And(
+    S_.f(S_.a.self, "VariableSetProcessor.__var_lookup") == S_.old.f(S_.a.self, "VariableSetProcessor.__var_lookup"),
+    S_.f(S_.a.self, "VariableSetProcessor.__var_cache") == S_.old.f(S_.a.self, "VariableSetProcessor.__var_cache")),
+    props=["C07", "C15"])
 
 
